@@ -282,16 +282,18 @@ def check_fock_assembly(ctx, rid):
                 raise AnalysisError(f"{fn}: only {n_el} Fock elements compared")
 
 
-def _hcore_namespace(S, method, beta, U, extra=None):
+def _hcore_namespace(S, method, beta, U, extra=None, far_pair=None):
     import numpy as np
     import sympy as sp
     npairs, na = len(S.pairs), len(S.atoms)
     zero = np.full((na,), sp.Integer(0), dtype=object)
-    pars = {"zeta_s": zero, "zeta_p": zero, "zeta_d": zero, "U_ss": U["U_ss"], "U_pp": U["U_pp"], "U_dd": U.get("U_dd", zero), "beta": beta,
+    zs, zp, zd = S.atom_vector("zs"), S.atom_vector("zp"), S.atom_vector("zd")
+    pars = {"zeta_s": zs, "zeta_p": zp, "zeta_d": zd, "U_ss": U["U_ss"], "U_pp": U["U_pp"], "U_dd": U.get("U_dd", zero), "beta": beta,
             "g_ss": zero, "g_pp": zero, "g_p2": zero, "h_sp": zero, "F0SD": None, "G2SD": None, "rho_core": None}
     pars.update(extra or {})
     return S.namespace(method=method, const=S.namespace(qn_int=None, qnD_int=None), parameters=pars,
-                       xij=np.full((npairs, 3), sp.Integer(0), dtype=object), rij=np.full((npairs,), sp.Integer(2), dtype=object),
+                       xij=np.array([[sp.Symbol(f"x{k}_{c}") for c in range(3)] for k in range(npairs)], dtype=object),
+                       rij=np.array([sp.Integer(2 + k) if k != far_pair else sp.Integer(50) for k in range(npairs)], dtype=object),
                        ni=np.full((npairs,), 6), nj=np.full((npairs,), 6), idxi=S.idxi, idxj=S.idxj, Z=np.full((na,), 6), nmol=S.nmol, molsize=S.molsize,
                        maskd=S.maskd, mask=S.mask, alp=None, chi=None, species=S.species)
 
@@ -306,13 +308,36 @@ def _upper(S, name, nbf):
     return a
 
 
-def interpret_hcore(repo, S, method, di, e1b, e2a, w, beta, U, extra=None):
+def interpret_hcore(repo, S, method, di, e1b, e2a, w, beta, U, extra=None, far_pair=None):
+    """the overlap kernel is replaced by a stand-in that (a) checks that it is handed, row by row, the atomic numbers, unit vector, distance and orbital exponents of the
+    pair's own two atoms (i first, j second) and only pairs within the overlap cutoff, and (b) returns the symbolic overlap blocks of exactly those pairs"""
+    import numpy as np
+    import sympy as sp
     from .loader import AnalysisError
     from .npsym import NpSym
     hc = repo.mod(HC)
+    problems = []
+    mol_box = {}
 
-    def overlap(*a, **k):
-        return di.copy()
+    def overlap(ni_, nj_, xij_, rij_, za, zb, *rest, **k):
+        mol = mol_box["mol"]
+        n_all = len(S.pairs)
+        rows = [k_ for k_ in range(n_all) if k_ != far_pair]
+        if getattr(rij_, "shape", (None,))[0] != len(rows):
+            problems.append(f"the overlap kernel receives {getattr(rij_, 'shape', None)} pairs, {len(rows)} are within the cutoff")
+            return np.full((getattr(rij_, "shape", (0,))[0], di.shape[1], di.shape[2]), sp.Integer(0), dtype=object)
+        nz = 2 if di.shape[1] == 4 else 3
+        zt = [mol.parameters["zeta_s"], mol.parameters["zeta_p"], mol.parameters["zeta_d"]][:nz]
+        for r_, k_ in enumerate(rows):
+            i_, j_ = S.pairs[k_]
+            if rij_[r_] != mol.rij[k_] or any(xij_[r_, c] != mol.xij[k_, c] for c in range(3)):
+                problems.append(f"row {r_} of the overlap call does not carry the distance / unit vector of pair {k_}")
+            if any(za[r_, c] != zt[c][i_] for c in range(nz)) or any(zb[r_, c] != zt[c][j_] for c in range(nz)):
+                problems.append(f"row {r_} of the overlap call (pair of atoms {i_},{j_}) receives orbital exponents `{[str(x) for x in za[r_]]}` / `{[str(x) for x in zb[r_]]}` "
+                                f"instead of those of atom {i_} / atom {j_}")
+            if int(ni_[r_]) != int(mol.ni[k_]) or int(nj_[r_]) != int(mol.nj[k_]):
+                problems.append(f"row {r_} of the overlap call receives the atomic numbers of another pair")
+        return di[rows].copy()
 
     def tetci(*a, **k):
         return (w.copy(), e1b.copy(), e2a.copy(), None, None, None, None)
@@ -322,10 +347,14 @@ def interpret_hcore(repo, S, method, di, e1b, e2a, w, beta, U, extra=None):
         raise AnalysisError("hcore: import of the two-centre integral kernel not found")
     stubs = {imp[0]: tetci, "two_elec_two_center_int": tetci, "diatom_overlap_matrix_PM6_SP": overlap, "diatom_overlap_matrixD": overlap, "diatom_overlap_matrix": overlap}
     I = NpSym(repo, stubs=stubs)
-    mol = _hcore_namespace(S, method, beta, U, extra)
+    mol = _hcore_namespace(S, method, beta, U, extra, far_pair)
+    mol.ni = np.array([8 - (a % 3) for a, b in S.pairs], dtype=np.int64)
+    mol.nj = np.array([6 - (b % 2) * 5 for a, b in S.pairs], dtype=np.int64)
+    mol_box["mol"] = mol
     res = I.call_function(hc, "hcore", [mol])
     if not (isinstance(res, tuple) and len(res) >= 2):
         raise AnalysisError("hcore: result is not (M, w, ...)")
+    mol.overlap_problems = problems
     return res[0], res[1], mol
 
 
@@ -347,9 +376,22 @@ def check_hcore_assembly(ctx, rid):
         w = S.pair_tensor("w", npk, npk) if nbf == 4 else np.full((len(S.pairs), 1, 1), sp.Integer(0), dtype=object)
         beta = np.array([[sp.Symbol(f"b{x}{a}") for x in ("s", "p", "d")[:2 if nbf == 4 else 3]] for a in range(na)], dtype=object)
         U = {"U_ss": S.atom_vector("Uss"), "U_pp": S.atom_vector("Upp"), "U_dd": S.atom_vector("Udd")}
-        M, w_out, _ = interpret_hcore(repo, S, method, di, e1b, e2a, w, beta, U)
+        M, w_out, molns = interpret_hcore(repo, S, method, di, e1b, e2a, w, beta, U)
         if getattr(M, "shape", None) != (S.nmol * molsize ** 2, nbf, nbf):
             raise AnalysisError(f"hcore: M has shape {getattr(M, 'shape', None)}")
+        ctx.check(not molns.overlap_problems, rid, hc, func, "hcore", f"overlap call[{method}]",
+                  f"hcore ({method}): the overlap kernel is handed each pair's own atomic numbers, geometry and orbital exponents (atom i first, atom j second)",
+                  f"hcore ({method}): {molns.overlap_problems[0] if molns.overlap_problems else ''}: the resonance integrals of that pair are built from another atom's orbitals")
+        if nbf == 4 and len(S.pairs) > 1:
+            # one pair beyond the overlap cutoff: its block must vanish, the others must be unchanged (and still receive their own arguments)
+            far = len(S.pairs) - 1
+            M2, _, molns2 = interpret_hcore(repo, S, method, di, e1b, e2a, w, beta, U, far_pair=far)
+            okf = not molns2.overlap_problems and all(M2[int(S.mask[far]), m_, n_] == 0 for m_ in range(nbf) for n_ in range(nbf)) and \
+                all(poly_equal(M2[int(S.mask[k_]), m_, n_], M[int(S.mask[k_]), m_, n_]) for k_ in range(far) for m_ in range(nbf) for n_ in range(nbf))
+            ctx.check(okf, rid, hc, func, "hcore", f"pair beyond overlap_cutoff[{method}]",
+                      f"hcore ({method}): with one pair beyond the overlap cutoff that pair's resonance block vanishes and every other pair is evaluated exactly as before",
+                      f"hcore ({method}): with one pair beyond the overlap cutoff " + (molns2.overlap_problems[0] if molns2.overlap_problems else "the resonance blocks of the near pairs change or the far block does not vanish")
+                      + ": a far-away atom changes the interaction of near pairs")
         shell = lambda m: 0 if m == 0 else 1 if m < 4 else 2
         bad = []
         seen = set()
@@ -1219,3 +1261,65 @@ def interpreted_parameter_packing(repo):
     if res[1] != "ALPHA" or res[2] != "CHI":
         return False, "alpha / chi are not passed through"
     return True, f"packing: the {len(want_req)} non-learned AM1 parameters come from their own table column at Z, learned and extra caller tensors are passed through as the same objects"
+
+
+def check_cis_energy(ctx, rid):
+    """calc_cis_energy (the excitation energy that is differentiated for reverse-mode excited-state forces) interpreted on the uniform test batch with exact rationals:
+    CIS  E = V . (A V);  RPA  E = X . (A X + B Y) + Y . (B X + A Y), with A and B the operators decided by check_cis_operator (independent oracle from the AO integrals)."""
+    import random
+    import numpy as np
+    import sympy as sp
+    from .loader import AnalysisError
+    from .npsym import NpSym
+    repo = ctx.repo
+    rc = repo.mod(RC)
+    f = rc.func("calc_cis_energy")
+    U = UniformBatch(2, 2, 1)
+    rng, cache = random.Random(61), {}
+    w = _numeric(np.array([[[sp.Symbol(f"w{k}_{a}_{b}") for b in range(10)] for a in range(10)] for k in range(U.nmol * U.npm)], dtype=object), rng, cache)
+    par = {k: _numeric(U.atom_vector(k), rng, cache) for k in ("g_ss", "g_pp", "g_sp", "g_p2", "h_sp")}
+    for a, (m, p) in enumerate(U.atoms):
+        if p >= U.heavy:
+            for k in ("g_pp", "g_sp", "g_p2", "h_sp"):
+                par[k][a] = sp.Integer(0)
+    nocc = 3
+    nvirt = U.norb - nocc
+    rnd = lambda *shape: np.array([sp.Rational(rng.randint(-20, 20), rng.randint(1, 7)) for _ in range(int(np.prod(shape)))], dtype=object).reshape(shape)
+    C = rnd(U.nmol, U.norb, U.norb)
+    e_mo = np.array([[sp.Integer(3 * i + b) for i in range(U.norb)] for b in range(U.nmol)], dtype=object)
+    mol = U.namespace(nmol=U.nmol, molsize=U.molsize, mask=U.mask, maskd=U.maskd, mask_l=U.mask_l, idxi=U.idxi, idxj=U.idxj, nHeavy=np.array([U.heavy] * U.nmol),
+                      nHydro=np.array([U.hydro] * U.nmol), norb=np.array([U.norb] * U.nmol), nocc=np.array([nocc] * U.nmol), parameters=par, molecular_orbitals=C, verbose=False)
+    Cocc, Cvirt = C[:, :, :nocc], C[:, :, nocc:]
+    ea_ei = np.array([[[e_mo[b, nocc + a] - e_mo[b, i] for a in range(nvirt)] for i in range(nocc)] for b in range(U.nmol)], dtype=object)
+
+    def AB(b, V):
+        Vr = V.reshape(nocc, nvirt)
+        Tn = [[sp.Add(*[Cocc[b, m, i] * Vr[i, a] * Cvirt[b, n, a] for i in range(nocc) for a in range(nvirt)]) for n in range(U.norb)] for m in range(U.norb)]
+        Gm = U.G(b, Tn, w, par)
+        A = np.array([[ea_ei[b, i, a] * Vr[i, a] + 2 * sp.Add(*[Cocc[b, m, i] * Gm[m][n] * Cvirt[b, n, a] for m in range(U.norb) for n in range(U.norb)]) for a in range(nvirt)] for i in range(nocc)], dtype=object)
+        B = np.array([[2 * sp.Add(*[Cocc[b, m, i] * Gm[n][m] * Cvirt[b, n, a] for m in range(U.norb) for n in range(U.norb)]) for a in range(nvirt)] for i in range(nocc)], dtype=object)
+        return A.reshape(-1), B.reshape(-1)
+    I = NpSym(repo, stubs={"getMemUse": lambda *a, **k: (False, 1)})
+    X, Y = rnd(U.nmol, nocc * nvirt), rnd(U.nmol, nocc * nvirt)
+    vals = {"mol": mol, "w": w, "e_mo": e_mo, "F": None, "P": None}
+    # CIS
+    res = I.call_function(rc, f, [mol, w.copy(), e_mo.copy(), X.copy(), None, None], {"rpa": False})
+    want = []
+    for b in range(U.nmol):
+        A_, _ = AB(b, X[b])
+        want.append(sp.Add(*[X[b, k] * A_[k] for k in range(nocc * nvirt)]))
+    ok = getattr(res, "shape", None) == (U.nmol,) and all(sp.sympify(res[b]) == want[b] for b in range(U.nmol))
+    ctx.check(ok, rid, rc, f, "calc_cis_energy", "CIS", "CIS excitation energy = V . (A V) with the singlet CIS Hamiltonian (exact rationals, uniform batch with hydrogen packing)",
+              "calc_cis_energy (CIS) is not V . A V: the energy that is differentiated for excited-state forces is not the reported excitation energy")
+    # RPA
+    amp = np.stack([X, Y], axis=0)
+    res = I.call_function(rc, f, [mol, w.copy(), e_mo.copy(), amp.copy(), None, None], {"rpa": True})
+    want = []
+    for b in range(U.nmol):
+        AX, BX = AB(b, X[b])
+        AY, BY = AB(b, Y[b])
+        want.append(sp.Add(*[X[b, k] * (AX[k] + BY[k]) + Y[b, k] * (BX[k] + AY[k]) for k in range(nocc * nvirt)]))
+    ok = getattr(res, "shape", None) == (U.nmol,) and all(sp.sympify(res[b]) == want[b] for b in range(U.nmol))
+    ctx.check(ok, rid, rc, f, "calc_cis_energy", "RPA", "RPA excitation energy = X . (A X + B Y) + Y . (B X + A Y) (exact rationals)",
+              "calc_cis_energy (RPA) is not (X Y) [[A B],[B A]] (X Y)^T: with reverse-mode forces on an RPA state the differentiated energy is not the reported excitation energy "
+              "(Etot and forces are inconsistent with cis_energies and with the analytical gradient)")
